@@ -24,6 +24,18 @@ ASSUMPTIONS = ["descriptors are matched by (element, token, position); dot expor
 FLOORS = {"quick": {"graphs_checked": 3000, "edges_compared": 40000, "distinct_nontrivial": 20}, "thorough": {"graphs_checked": 30000}}
 
 
+def rgraph_fp(G):
+    """order-free fingerprint of a reaction graph: node texts with their numeric attributes, edges between node texts with theirs"""
+    import collections as _c
+
+    def attrs(d):
+        return tuple(sorted((k, round(float(v), 12)) for k, v in d.items() if isinstance(v, (int, float)) and not isinstance(v, bool)))
+
+    nodes = _c.Counter((type(n).__name__, str(n), attrs(d)) for n, d in G.nodes(data=True))
+    edges = _c.Counter((str(u), str(v), attrs(d)) for u, v, d in G.edges(data=True))
+    return nodes, edges
+
+
 def plan(tier, seed):
     n = 192 if tier == "quick" else 1600
     return [{"seed": seed * 1000807 + i, "n": 60} for i in range(n)]
@@ -101,6 +113,25 @@ def run_case(case):
             viol.append({"cls": "c16.graph-construction-raises", "msg": f"gen_reaction_graph raised {type(exc).__name__}: {exc}", "text": text})
             continue
         cnt["graphs_checked"] += 1
+        # a function of the notation, not of the object's history: same graph when asked twice; the mirror's graph (taken after this object built
+        # its own) equals the graph of a fresh parse of the mirror's text
+        if k % 4 == 0:
+            try:
+                if rgraph_fp(M.gen_reaction_graph()) != rgraph_fp(G):
+                    viol.append({"cls": "c16.graph-differs-between-calls", "msg": "two calls of gen_reaction_graph on one object gave different graphs", "text": text})
+                mir = M.gen_mirror()
+                if mir is not None:
+                    mt = str(mir)
+                    try:
+                        fresh = gbigsmiles.Molecule(mt)
+                    except Exception:
+                        fresh = None
+                    if fresh is not None:
+                        cnt["mirror_graphs_compared"] += 1
+                        if rgraph_fp(mir.gen_reaction_graph()) != rgraph_fp(fresh.gen_reaction_graph()):
+                            viol.append({"cls": "c16.graph-of-mirror-differs-from-fresh-parse", "msg": f"after this object built its reaction graph, the graph of its mirror {mt!r} differs from the graph of a fresh parse of that text", "text": text})
+            except Exception:
+                cnt["mirror_probe_raised"] += 1
         # map library objects to model keys
         key_of = {}
         lib_tokens = []
